@@ -4,10 +4,10 @@ package drivers
 // PLUGIN_PROTOCOL_VERSIONS value; layer "pair": a real Client and plugin process.
 
 import (
-	plugin "github.com/hashicorp/go-plugin"
 	"bufio"
 	"encoding/json"
 	"fmt"
+	plugin "github.com/hashicorp/go-plugin"
 	"os"
 	"os/exec"
 	"runtime"
